@@ -89,7 +89,7 @@ def concretise(log):
             if closing_type:
                 intype = False
         elif r == "IsControlStatement":
-            t = tabs + "while (x)\n"
+            t = tabs + "while (x)\n" + (tabs + "\t;\n" if nl == 2 else "")
         elif r == "IsVarDeclaration":
             enum = log[i - 1]["names"][-1] == "UserDefinedEnum"
             t = tabs + ("A%d,\n" % i if enum else "int\ta%d;\n" % i)
